@@ -48,7 +48,8 @@ class Ref:
         return (tuple(self.unused), tuple(sorted(self.ann.items())), self.saved)
 
 
-OPS = [('handout', 'a'), ('handout', 'b'), ('restore',), ('save',), ('load',), ('roundtrip',)]
+OPS = [('handout', 'a'), ('handout', ''), ('handout', 'caf\u00e9 "q" \\ \n\u2713'), ('restore',), ('restore-oldest',), ('save',), ('load',),
+       ('roundtrip',)]
 
 
 def apply_op(w, ref, op, last, rec, check_crash, bad, trace):
@@ -80,6 +81,20 @@ def apply_op(w, ref, op, last, rec, check_crash, bad, trace):
         del ref.ann[last]
         ref.unused.append(last)
         return w, ref, None
+    if kind == 'restore-oldest':
+        # restore a key that is NOT the most recently handed-out one (first annotated key in key-pair order)
+        cands_ = [k.pub for k in KEYS if k.pub in ref.ann and k.pub != last]
+        if not cands_ or len(ref.ann) < 2:
+            return None
+        k0 = cands_[0]
+        try:
+            w.restore_annotated_public_key(k0, ref.ann[k0])
+        except Exception as e:
+            bad.append(('restore-raises', "restoring a handed-out key raises %r" % (e,), trace))
+            return w, ref, last
+        del ref.ann[k0]
+        ref.unused.append(k0)
+        return w, ref, last
     if kind == 'save':
         before_text = file_text()
         rec.reset()
@@ -272,7 +287,7 @@ def big_wallet_crash(rec, n):
 
 
 def run(ctx):
-    depth = 8 if ctx.quick else 10
+    depth = 7 if ctx.quick else 9
     stats, bad, wallet_states, rec = search(ctx, depth)
     nb, bad2 = balance_part(ctx, wallet_states)
     nbig, bad3 = big_wallet_crash(rec, 100 if ctx.quick else 400)
